@@ -23,7 +23,8 @@ M = [
  ("run_result_inverted_for_last", "C02", "sim.go", "\t\tresult[i] = warrior.Alive()", "\t\tresult[i] = warrior.Alive() || (i > 1 && warrior.state == WarriorDead)"),
  ("slt_immB_default_B", "C03", "load.go", "\tcase SLT:\n\t\tif AMode == IMMEDIATE {\n\t\t\treturn AB, nil\n\t\t} else {\n\t\t\treturn B, nil\n\t\t}\n\n\tcase ADD:", "\tcase SLT:\n\t\tif AMode == IMMEDIATE {\n\t\t\treturn AB, nil\n\t\t} else if BMode == IMMEDIATE {\n\t\t\treturn AB, nil\n\t\t} else {\n\t\t\treturn B, nil\n\t\t}\n\n\tcase ADD:"),
  ("dat88_default_direct", "C03", "compile.go", "\t\tif c.config.Mode == ICWS88 && opLower == \"dat\" {\n\t\t\tbMode = IMMEDIATE", "\t\tif c.config.Mode == ICWS88 && opLower == \"dat\" && false {\n\t\t\tbMode = IMMEDIATE"),
- ("end_label_off_by_one", "C03", "compile.go", "\t\t\t\t\tc.labels[label] = curPseudoLine", "\t\t\t\t\tc.labels[label] = curPseudoLine + 1"),
+ ("end_label_off_by_one", "C03", "compile.go", "c.startExpr = line.a\n\t\t\t\t}\n\t\t\t\tfor _, label := range line.labels {\n\t\t\t\t\tc.labels[label] = curPseudoLine", "c.startExpr = line.a\n\t\t\t\t}\n\t\t\t\tfor _, label := range line.labels {\n\t\t\t\t\tc.labels[label] = curPseudoLine + 1"),
+ ("org_label_off_by_one", "C03", "compile.go", "// a label on the ORG line denotes the instruction that follows\n\t\t\t\tfor _, label := range line.labels {\n\t\t\t\t\tc.labels[label] = curPseudoLine", "// a label on the ORG line denotes the instruction that follows\n\t\t\t\tfor _, label := range line.labels {\n\t\t\t\t\tc.labels[label] = curPseudoLine + 1"),
  ("lone_operand_b_immediate", "C03", "compile.go", "\t\t\t// set A to #0\n\t\t\taMode = IMMEDIATE\n\t\t\taVal = 0\n\t\t}", "\t\t\t// set A to #0\n\t\t\taMode = IMMEDIATE\n\t\t\taVal = 0\n\t\t} else if op == JMZ {\n\t\t\tbMode = IMMEDIATE\n\t\t}"),
  ("djn_unreduced", "C04", "simops.go", "\tcase B:\n\t\tfallthrough\n\tcase AB:\n\t\ts.mem[WAB].B = (s.mem[WAB].B + s.m - 1) % s.m\n\t\tIRB.B -= 1", "\tcase B:\n\t\tfallthrough\n\tcase AB:\n\t\ts.mem[WAB].B = s.mem[WAB].B - 1\n\t\tIRB.B -= 1"),
  ("runcycle_guard_gt", "C04", "sim.go", "if s.cycleCount >= s.maxCycles || s.warriorLivingCount < 1 {", "if s.cycleCount > s.maxCycles || s.warriorLivingCount < 1 {"),
@@ -32,7 +33,14 @@ M = [
  ("start_check_removed", "C06", "compile.go", "if startVal < 0 || (startVal > 0 && startVal >= len(code)) {", "if startVal < 0 {"),
  ("flip_double_neg_disabled", "C07", "expr.go", "\t\t\tif i+1 < len(expr) && expr[i+1].val == \"-\" {", "\t\t\tif i+1 < len(expr) && expr[i+1].val == \"-\" && i > 2 {"),
  ("maxprocesses_is_length", "C07", "compile.go", "\"MAXPROCESSES\": {{tokNumber, fmt.Sprintf(\"%d\", config.Processes)}},", "\"MAXPROCESSES\": {{tokNumber, fmt.Sprintf(\"%d\", config.Length)}},"),
- ("for_loops_lt_count", "C08", "forexpand.go", "for i := 1; i <= f.forCount; i++ {", "for i := 1; i < f.forCount || (i == 1 && f.forCount == 1); i++ {"),
+ ("for_loops_lt_count", "C08", "forexpand.go", "for i := 1; i <= f.forCount; i++ {\n\t\tfor pos, tok := range f.forContent {", "for i := 1; i < f.forCount || (i == 1 && f.forCount == 1); i++ {\n\t\tfor pos, tok := range f.forContent {"),
+ ("block_labels_one_line_late", "C08", "forexpand.go", "\tf.forLabelPos = len(f.forContent)\n\tif f.forDanglingPos >= 0 {", "\tf.forLabelPos = len(f.forContent) + 1\n\tif f.forDanglingPos >= 0 {"),
+ ("held_labels_dropped_at_equ", "C08", "forexpand.go", "\tlabels := f.labelBuf\n\tfor _, label := range labels {\n\t\tf.tokens <- token{tokText, label}\n\t}\n\tf.labelBuf = make([]string, 0)\n", "\tlabels := f.labelBuf\n\tfor _, label := range labels {\n\t\tf.tokens <- token{tokText, label}\n\t}\n\tf.labelBuf = make([]string, 0)\n\tf.heldLabels = nil\n"),
+ ("nested_equ_first_copy_only", "C08", "forexpand.go", "\t\tif !hasNestedEqu {\n", "\t\tif !hasNestedEqu || i == 1 {\n"),
+ ("trailing_remark_is_metadata", "C03", "parser.go", "if p.nextToken.typ == tokComment && p.gapAtLineStart {", "if p.nextToken.typ == tokComment {"),
+ ("scanner_ignores_colon", "C03", "symbol_scanner.go", "\tcase tokColon:\n\t\t// \"label: op\", as in the parser and the FOR expander\n\t\tfallthrough\n", ""),
+ ("error_order_by_map", "C14", "parser.go", "if !found || i < firstLine || (i == firstLine && symbol < firstSymbol) {", "if !found {"),
+ ("strategy_quadratic", "C05", "parser.go", "\t\t\tp.strategy.WriteString(comment[10:])\n", "\t\t\told := p.strategy.String()\n\t\t\tp.strategy.Reset()\n\t\t\tp.strategy.WriteString(old)\n\t\t\tp.strategy.WriteString(comment[10:])\n"),
  ("fordepth_not_decremented", "C08", "forexpand.go", "\t\t\t\tif f.forDepth > 0 {\n\t\t\t\t\tf.forDepth -= 1", "\t\t\t\tif f.forDepth > 1 {\n\t\t\t\t\tf.forDepth -= 1"),
  ("parseaddress_no_negative", "C09", "asm.go", "\tif val < 0 {\n\t\tval = (m + val) % m\n\t}", "\tif val < -1 {\n\t\tval = (m + val) % m\n\t}\n\tif val < 0 {\n\t\tval = -val\n\t}"),
  ("loader_comma_check_removed", "C10", "load.go", "\t\tif !strings.Contains(lower, \",\") {\n\t\t\treturn WarriorData{}, fmt.Errorf(\"line %d: missing comma\", lineNum)\n\t\t}\n\n\t\top, opmode, err := getOp94(fields[0])", "\t\top, opmode, err := getOp94(fields[0])"),
